@@ -91,14 +91,14 @@ func (r *rec) cs(th int, k int, write bool) {
 			r.fail("mutual-exclusion", "thread %d holds the write lock of key %d while %d writer(s) and %d reader(s) are inside", th, k, r.writers[k], r.readers[k])
 		}
 		r.writers[k]++
-		vrt.Yield("h.cs", uintptr(unsafe.Pointer(&r.writers[k])), true)
+		vrt.Yield("h.cs", unsafe.Pointer(&r.writers[k]), true)
 		r.writers[k]--
 	} else {
 		if r.writers[k] != 0 {
 			r.fail("mutual-exclusion", "thread %d holds the read lock of key %d while a writer is inside", th, k)
 		}
 		r.readers[k]++
-		vrt.Yield("h.rcs", uintptr(unsafe.Pointer(&r.writers[k])), true)
+		vrt.Yield("h.rcs", unsafe.Pointer(&r.writers[k]), true)
 		r.readers[k]--
 	}
 }
